@@ -76,6 +76,15 @@ pub open spec fn spec_sign_with_randomizer_seed<C: RandomizedCiphersuite>(sp: Si
     }
 }
 
+// ---- aggregation: frost-core aggregate / aggregate_custom (RFC 9591 5.3 + the implementation's refusals and cheater detection, relation
+// `agg_result_is` of lemmas/vspec_agg.rs) applied to the RANDOMIZED public key package.  A PublicKeyPackage holds a BTreeMap, which has no
+// spec-level constructor, hence "there is a package with exactly the shifted entries such that ..." (agg_result_is reads a package only
+// through its key, threshold and the VIEW of its share map: lemma_agg_result_package_ext in lemmas/vprops_rerand.rs)
+pub open spec fn spec_randomized_agg_result_is<C: Ciphersuite>(res: Result<Signature<C>, Error<C>>, sp: SigningPackage<C>, shares: ShareMap<C>, pk: PublicKeyPackage<C>,
+        p: RandomizedParams<C>, detect: bool, first: bool) -> bool {
+    exists|rpk: PublicKeyPackage<C>| #[trigger] spec_is_randomized_public_key_package::<C>(rpk, pk, p) && agg_result_is::<C>(res, sp, shares, rpk, detect, first)
+}
+
 // the pairs `(id, share + d)` produced from an ascending enumeration `rem` of the map `m` and collected into a map are `m` shifted by d
 // (statement about the spec functions only; used as a hint by `PublicKeyPackage::randomize`)
 pub proof fn lemma_shifted_shares_collected<C: Ciphersuite>(out: Map<Identifier<C>, VerifyingShare<C>>, m: Map<Identifier<C>, VerifyingShare<C>>, d: Element<C>,
